@@ -728,8 +728,6 @@ class Interp:
                 return _tree_unflatten(flat[0][1], outs)
             return UNK
         if path in ('jax.tree.leaves', 'jax.tree.flatten', 'jax.tree.structure') and args:
-            if isinstance(args[0], AxArr):
-                return [args[0]] if path.endswith('leaves') else ([args[0]], UNK)
             f_ = _tree_flatten(args[0], kwargs.get('is_leaf'), self)
             if f_ is None:
                 return UNK
@@ -744,6 +742,23 @@ class Interp:
             if f_ is None:
                 return UNK
             return self.external('functools.reduce', [args[0], list(f_[0])] + list(args[2:]), {})
+        if path == 'jax.tree.all' and len(args) == 1:
+            f_ = _tree_flatten(args[0], kwargs.get('is_leaf'), self)
+            if f_ is None:
+                return UNK
+            return all(self.truth(x) for x in f_[0])
+        if path == 'operator.methodcaller' and args and isinstance(args[0], str):
+            name_, margs, mkw = args[0], list(args[1:]), dict(kwargs)
+            return lambda o: self.call(self.get_attr(o, name_, None), list(margs), dict(mkw), None)
+        if path == 'operator.attrgetter' and len(args) == 1 and isinstance(args[0], str):
+            names_ = args[0].split('.')
+
+            def _get(o: Any) -> Any:
+                for n_ in names_:
+                    o = self.get_attr(o, n_, None)
+                return o
+
+            return _get
         if path == 'jax.random.split' and len(args) == 2 and isinstance(args[1], int) and isinstance(args[0], (Opaque, Sym)):
             return tuple(Sym('jax.random.split[]', (args[0], args[1], i)) for i in range(args[1]))
         if path == 'furax.tree.as_promoted_dtype' and len(args) == 1 and not kwargs and isinstance(args[0], (tuple, list)) and all(isinstance(x, (Opaque, Promoted)) for x in args[0]):
@@ -811,6 +826,10 @@ class Interp:
             if _concrete(args[0]):
                 raise Raised('TypeError')
             return UNK
+        if path.startswith('operator.') and len(args) == 2 and not kwargs and any(isinstance(x, Obj) for x in args):
+            op_ = {v: k for k, v in self._DUNDERS.items()}.get(path.split('.', 1)[1].strip('_'))
+            if op_ is not None:
+                return self._object_binop(op_, args[0], args[1])
         if path.startswith('operator.') and all(_concrete(x) for x in args) and not kwargs:
             import operator as _op
 
@@ -1225,6 +1244,10 @@ class Interp:
             if o is UNK:
                 return
             if isinstance(o, (list, dict)) and _concrete(k):
+                if isinstance(k, slice) and not isinstance(value, (list, tuple)):
+                    if value is UNK or isinstance(value, (Opaque, Sym)):
+                        raise Undecided(f'slice store of an abstract value (line {target.lineno})')
+                    raise Raised('TypeError', target)
                 try:
                     o[k] = value
                 except (IndexError, KeyError) as e:
@@ -1310,6 +1333,8 @@ class Interp:
         elif isinstance(st, (ast.Pass, ast.Import, ast.ImportFrom, ast.Global, ast.Nonlocal, ast.Delete)):
             if isinstance(st, (ast.Import, ast.ImportFrom)):
                 for al in st.names:
+                    if (al.asname or al.name).split('.')[0] in env.module.imports:
+                        continue  # the loader recorded it (relative imports resolved): name() finds it
                     base = al.name if isinstance(st, ast.Import) else f'{st.module}.{al.name}'
                     env.vars[(al.asname or al.name).split('.')[0]] = Ref(base if al.asname or isinstance(st, ast.ImportFrom) else al.name.split('.')[0])
         elif isinstance(st, ast.Break):
